@@ -7,6 +7,7 @@ import Driver.Echo
 import Driver.L2
 import Driver.UriId
 import Driver.Codec
+import Driver.Auth
 
 def main (args : List String) : IO UInt32 := do
   match args with
@@ -14,5 +15,6 @@ def main (args : List String) : IO UInt32 := do
   | "l2" :: rest => Driver.L2.run rest
   | "uriid" :: rest => Driver.UriId.run rest
   | "codec" :: rest => Driver.Codec.run rest
+  | "auth" :: rest => Driver.Auth.run rest
   | m :: _ => do IO.eprintln s!"nexus-driver: unknown mode {m}"; return 2
   | [] => do IO.eprintln "usage: nexus-driver <mode> [args]"; return 2
